@@ -11,7 +11,7 @@ Fixpoint size (e : expr) {struct e} : nat :=
   let sizes := fix sizes (l : list expr) : nat := match l with [] => O | x :: r => (size x + sizes r)%nat end in
   match e with
   | EBin _ x y => S (size x + size y)
-  | ENeg x | ENot x | EObj _ _ x => S (size x)
+  | ENeg x | ENot x | EObj _ _ x | EAcc _ x => S (size x)
   | EMenu _ x y => S (size x + size y)
   | ECall _ l | ELCall _ l | EList l | EPList l => S (sizes l)
   | _ => 1%nat
@@ -166,7 +166,7 @@ Fixpoint lists_even (e : expr) {struct e} : Prop :=
   | ENeg x | ENot x => lists_even x
   | ECall _ l | ELCall _ l | EList l => all l
   | EPList l => Nat.even (length l) = true /\ all l
-  | EObj _ _ x => lists_even x
+  | EObj _ _ x | EAcc _ x => lists_even x
   | EMenu _ x y => lists_even x /\ lists_even y
   | _ => True
   end.
@@ -304,6 +304,12 @@ Proof.
     erewrite (Hop mn rest); [reflexivity | exact (IHm Hm) | exact Hm | lia | exact Hr].
   - (* the <special / date-time / system property> *)
     intros k i _ fuel rest Hf Hr. cbn [size] in Hf. fuelS fuel f. cbn [pp_tok strip filter app parse_u]. reflexivity.
+  - (* the <name> *)
+    intros n _ fuel rest Hf Hr. cbn [size] in Hf. fuelS fuel f. cbn [pp_tok strip filter app parse_u]. reflexivity.
+  - (* the <name> of <expression> *)
+    intros n x IHx Hx fuel rest Hf Hr. cbn [size] in Hf. pose proof (size_pos x). fuelS fuel f.
+    cbn [pp_tok]. rewrite !strip_app. cbn [strip filter app parse_u].
+    rewrite (IHx Hx f rest ltac:(lia) Hr). reflexivity.
   - intros _. constructor.
   - intros x l IHx IHl [Hx Hl]. constructor; [exact (IHx Hx) | exact (IHl Hl)].
 Qed.
